@@ -37,15 +37,29 @@ def _candidates(plan):
     """Yield (description, candidate plan); simplest-first within each family."""
     P = copy.deepcopy
     phases = plan.get("phases", [])
-    if plan.get("schedule"):
+    sch = plan.get("schedule")
+    if sch and isinstance(sch[0], list) and any(sch):
+        c = P(plan)
+        c["schedule"] = [[] for _ in sch]
+        yield "empty schedule", c
+    elif sch and not isinstance(sch[0], list):
         c = P(plan)
         c["schedule"] = []
         yield "empty schedule", c
+    if plan.get("knobs", {}).get("alt_phases"):
+        c = P(plan)
+        c["knobs"]["alt_phases"] = []
+        yield "all phases in the run's own interpreter", c
     # drop whole phases
     for i in range(len(phases)):
         if len(phases) > 1:
             c = P(plan)
             del c["phases"][i]
+            if isinstance(c.get("schedule"), list) and c["schedule"] and isinstance(c["schedule"][0], list) and i < len(c["schedule"]):
+                del c["schedule"][i]
+            ap = c.get("knobs", {}).get("alt_phases")
+            if ap:
+                c["knobs"]["alt_phases"] = [x - 1 if x > i else x for x in ap if x != i]
             yield f"drop phase {i}", c
     # drop sessions / tasks / ops
     for i, ph in enumerate(phases):
@@ -99,6 +113,11 @@ def _candidates(plan):
                     s2["tasks"] = keep
                     del s2["aggs"][a]
                     yield f"drop aggregator {a} of {i}.{j}", c
+            for flag in ("decoy", "main_stat"):
+                if sess.get(flag):
+                    c = P(plan)
+                    c["phases"][i]["sessions"][j].pop(flag)
+                    yield f"no {flag} in {i}.{j}", c
             if sess.get("path_kind") == "path":
                 c = P(plan)
                 c["phases"][i]["sessions"][j]["path_kind"] = "str"
@@ -243,19 +262,22 @@ def _candidates(plan):
             if c.get("stale_buffer"):
                 c["stale_buffer"] = [simple if s == nm else s for s in c["stale_buffer"]]
             yield f"rename {nm!r}->{simple}", c
-    # schedule: cut the tail, then zero choices from the end
+    # schedule: per phase, cut the tail, then zero choices from the end
     sch = plan.get("schedule")
-    if sch:
-        for cut in (0, len(sch) // 2, len(sch) - 1):
-            if cut < len(sch):
+    if sch and isinstance(sch[0], list):
+        for pi, ps in enumerate(sch):
+            if not ps:
+                continue
+            for cut in (0, len(ps) // 2, len(ps) - 1):
+                if cut < len(ps):
+                    c = P(plan)
+                    c["schedule"][pi] = ps[:cut]
+                    yield f"schedule[{pi}] cut to {cut}", c
+            nz = [i for i, x in enumerate(ps) if x != 0]
+            for i in reversed(nz[-12:]):
                 c = P(plan)
-                c["schedule"] = sch[:cut]
-                yield f"schedule cut to {cut}", c
-        nz = [i for i, x in enumerate(sch) if x != 0]
-        for i in reversed(nz[-12:]):
-            c = P(plan)
-            c["schedule"][i] = 0
-            yield f"schedule[{i}]=0", c
+                c["schedule"][pi][i] = 0
+                yield f"schedule[{pi}][{i}]=0", c
 
 
 def shrink(plan: dict, fails, max_execs: int = 400, extra_candidates=None):
